@@ -127,3 +127,45 @@ def ext_type_sweep(rep, binary, prop):
                               v["table"], where, f[2] if len(f) == 4 else "?", f[3] if len(f) == 4 else "?"), "sweep")
         else:
             rep.cov["traces_validated_against_impl"] += 1
+
+
+def pipeline_runs(rep, binary, prop, aspect, runs=60):
+    """Growth beyond the listed properties: the end-to-end pipeline model (Pipeline.tla: TCP segments -> raw records ->
+    defragmenter -> automaton) is explored by TLC for every segmentation of three fragmented handshakes
+    (ChunkingInvariance, NeverError, PrefixOfReference, NoWholeRecordWaiting); its per-position states are then compared
+    with the real pipeline under seeded random segmentations.  `aspect` selects what this property judges:
+    "delivery" (messages delivered, bytes waiting, defragmenter state) or "state" (the automaton's state)."""
+    table = {}
+    scen = []
+    d = None
+    for sc in (1, 2, 3):
+        d, res, lines = vlib.tlc_single(prop, "pipeline%d" % sc, "MC_Pipeline", cfg="MC_Pipeline_%d" % sc, workers=1, timeout=300,
+                                        out_name="pos.ndjson")
+        rep.add_tlc("MC_Pipeline_%d" % sc, res)
+        for l in lines:
+            if "flights" in l:
+                scen.append(l)
+            else:
+                table[(l["scenario"], l["fl"], l["sent"])] = l
+    sp = vlib.os.path.join(d, "scenarios.ndjson")
+    vlib.write_ndjson(sp, scen)
+    out = vlib.os.path.join(d, "pipeline.out.ndjson")
+    vlib.run_harness(binary, ["pipeline", sp, str(vlib.seed()), str(runs), out])
+    keys = ("nkinds", "tcp_c", "tcp_s", "inprog_c", "inprog_s", "buf_c", "buf_s") if aspect == "delivery" else ("tls",)
+    nruns = set()
+    for o in vlib.read_ndjson(out):
+        rep.count()
+        nruns.add((o["scenario"], o["run"]))
+        exp = table.get((o["scenario"], o["fl"], o["sent"]))
+        if exp is None:
+            raise vlib.ToolError("pipeline position %s not in the model" % ((o["scenario"], o["fl"], o["sent"]),))
+        rep.nontrivial(("pipeline", o["scenario"], o["fl"], o["sent"] // 8, o["tls"]))
+        if aspect == "state" and o["nkinds"] != exp["nkinds"]:
+            continue      # message delivery is judged by the delivery aspect (C07), not here
+        bad = [k for k in keys if o[k] != exp[k] and not (k.startswith("buf_") and not exp["inprog_" + k[-1]])]
+        if bad or str(o["tls"]).startswith("PANIC"):
+            k = bad[0] if bad else "tls"
+            rep.violation("pipeline:%s:%s:%s:%s" % (o["scenario"], o["fl"], o["sent"], k), {"scenario": o["scenario"], "position": [o["fl"], o["sent"]], "run": o["run"]},
+                          {x: exp[x] for x in keys}, {x: o[x] for x in keys},
+                          "end-to-end pipeline, scenario %s, flight %s byte %s: %s = %s, the model says %s" % (o["scenario"], o["fl"], o["sent"], k, o[k], exp[k]), "pipeline")
+    rep.cov["traces_validated_against_impl"] += len(nruns)
